@@ -1,6 +1,7 @@
 package main
 
 import (
+	"go.uber.org/zap/zaptest/observer"
 	"bytes"
 	"io"
 	"encoding/json"
@@ -336,6 +337,17 @@ func checkC04(c *Ctx) {
 	}
 	c04FirstWrites(c)
 	c04ConsoleNamespace(c)
+	for _, f := range sharedFileLines() {
+		switch f.Key {
+		case "harness":
+			c.Inconclusive("%s", f.What)
+		case "invalid-json":
+			c.Violation("C04/line-corrupt", f.What, map[string]interface{}{"scenario": "shared-file"})
+		default:
+			c.Violation("C04/"+f.Key, f.What, map[string]interface{}{"scenario": "shared-file"})
+		}
+	}
+	c04ObserverDrain(c)
 	// several goroutines making the first use of one WithLazy logger: every entry arrives, with its context
 	runLazyOnce(c, "C04/", func(k string) bool { return k == "lazy/panic" || k == "lazy/entry-missing" || k == "lazy/context" })
 	c.Set("projected_interleavings", int64(len(keys)))
@@ -772,6 +784,66 @@ func c04ConsoleNamespace(c *Ctx) {
 				c.Violation("C04/line-corrupt", fmt.Sprintf("console child with an open namespace, %d goroutines: line %q, its own entry renders as %q", G, l, parts[0]+"\t"+want), map[string]interface{}{"mode": "console-namespace"})
 				return
 			}
+		}
+		c.Add("traces_validated_against_impl", 1)
+	}
+}
+
+
+// c04ObserverDrain: an observer core is a sink too (a tee branch in tests): producers log while a consumer drains it
+// with TakeAll. Every entry is handed out exactly once, in each producer's order.
+func c04ObserverDrain(c *Ctx) {
+	for round := 0; round < c.Pick(6, 60); round++ {
+		ocore, logs := observer.New(zapcore.DebugLevel)
+		ocore2, logs2 := observer.New(zapcore.InfoLevel)
+		lg := zap.New(zapcore.NewTee(ocore, ocore2))
+		const P, N = 6, 400
+		var wg sync.WaitGroup
+		for p := 0; p < P; p++ {
+			wg.Add(1)
+			go func(p int) {
+				defer wg.Done()
+				l := lg.With(zap.Int("p", p))
+				for i := 0; i < N; i++ {
+					l.Info("e", zap.Int("i", i))
+				}
+			}(p)
+		}
+		done := make(chan struct{})
+		go func() { wg.Wait(); close(done) }()
+		next := [2][P]int{}
+		bad := ""
+		drain := func(k int, l *observer.ObservedLogs) {
+			for _, e := range l.TakeAll() {
+				m := e.ContextMap()
+				p, i := int(m["p"].(int64)), int(m["i"].(int64))
+				if i != next[k][p] && bad == "" {
+					bad = fmt.Sprintf("observer %d: producer %d's entry %d was handed out where its entry %d was due (entries lost, duplicated or reordered while TakeAll ran next to the loggers)", k+1, p, i, next[k][p])
+				}
+				next[k][p] = i + 1
+			}
+		}
+		for running := true; running; {
+			select {
+			case <-done:
+				running = false
+			default:
+			}
+			drain(0, logs)
+			drain(1, logs2)
+		}
+		drain(0, logs)
+		drain(1, logs2)
+		for k := 0; k < 2 && bad == ""; k++ {
+			for p := 0; p < P; p++ {
+				if next[k][p] != N {
+					bad = fmt.Sprintf("observer %d: %d of producer %d's %d entries were handed out by TakeAll", k+1, next[k][p], p, N)
+				}
+			}
+		}
+		if bad != "" {
+			c.Violation("C04/entry-lost", "tee of two observer cores drained with TakeAll while 6 goroutines log: "+bad, map[string]interface{}{"scenario": "observer-drain"})
+			return
 		}
 		c.Add("traces_validated_against_impl", 1)
 	}
